@@ -1032,6 +1032,37 @@ func (e *dbhistEngine) Exec(tr *Trace, x *X) {
 						allSupported = false
 					}
 				}
+				plain := allSupported
+				for _, l := range *db {
+					if l.SignatureType == signature.CERT_EXTERNAL_MANAGEMENT_GUID {
+						plain = false // (what decoding does to those lists is the known finding, judged below)
+					}
+				}
+				if plain && op.D%2 == 0 {
+					// the same stream with one more list that holds no entry (28 bytes; SignatureSize 0 is what a list nothing
+					// was ever added to carries): well-formed, decodes to the same entries
+					var hdr [28]byte
+					copy(hdr[:], refGUIDWire(signature.CERT_X509_GUID))
+					hdr[16] = 28
+					if op.D%4 == 0 {
+						hdr[24], hdr[25] = 0x30, 0x03 // ...or the size of a certificate that is gone again
+					}
+					var g2 signature.SignatureDatabase
+					var e2 error
+					func() {
+						defer func() {
+							if r := recover(); r != nil {
+								e2 = fmt.Errorf("panic: %v", r)
+							}
+						}()
+						g2, e2 = signature.ReadSignatureDatabase(bytes.NewReader(append(append([]byte(nil), enc...), hdr[:]...)))
+					}()
+					if e2 != nil || !viewsEqual(viewOf(&g2), before) {
+						fail("dbhist.restart_decodes_own_output", "the encoded database followed by a list without entries (28-byte header) does not decode to the same entries: err=%v, %d entries, expected %d", e2, len(viewOf(&g2)), len(before))
+						return
+					}
+					x.Probe("restart_with_entryless_list")
+				}
 				x.Logf("op %d Restart: %d bytes, all types decodable=%v -> err=%v", i, len(enc), allSupported, err)
 				if err != nil {
 					if allSupported {
